@@ -2311,6 +2311,101 @@ fn runtime_builder(it: &MacroItem, root: &KeyPair) -> BOut {
 }
 
 /// main of the generated crate
+/// Parameters given to the macros as native Rust values (every `ToAnyParam` implementation:
+/// i64, bool, String, &str, Vec<u8>, SystemTime, BTreeSet<Term>, Term, PublicKey) against the
+/// run-time path `try_from(source)` + `set` / `set_scope` with the same value converted by
+/// `Into<Term>`, for each item kind and for a parameter used in two alternatives.  Returns a
+/// description of every pair that differs.
+pub fn typed_param_mismatches() -> Vec<String> {
+    use biscuit_auth::macros::*;
+    use std::collections::BTreeSet;
+    use std::time::{Duration, SystemTime, UNIX_EPOCH};
+    let mut bad: Vec<String> = vec![];
+    macro_rules! one {
+        ($label:expr, $val:expr) => {{
+            let r = catch_unwind(AssertUnwindSafe(|| {
+                let mut out: Vec<String> = vec![];
+                // fact
+                let m = fact!("f({p}, 1)", p = $val);
+                let mut r = builder::Fact::try_from("f({p}, 1)").unwrap();
+                r.set("p", $val).unwrap();
+                if m != r {
+                    out.push(format!("fact!: macro {} / runtime {}", m, r));
+                }
+                // rule: head, body and expression positions
+                let m = rule!("h({p}) <- b($x, {p}), $x == {p}", p = $val);
+                let mut r = builder::Rule::try_from("h({p}) <- b($x, {p}), $x == {p}").unwrap();
+                r.set("p", $val).unwrap();
+                if m != r {
+                    out.push(format!("rule!: macro {} / runtime {}", m, r));
+                }
+                // check and policy: the same parameter in two alternatives
+                let m = check!("check if a({p}) or b({p}), $x == {p}", p = $val);
+                let mut r = builder::Check::try_from("check if a({p}) or b({p}), $x == {p}").unwrap();
+                r.set("p", $val).unwrap();
+                if m != r {
+                    out.push(format!("check!: macro {} / runtime {}", m, r));
+                }
+                let m = policy!("allow if a({p}) or b({p})", p = $val);
+                let mut r = builder::Policy::try_from("allow if a({p}) or b({p})").unwrap();
+                r.set("p", $val).unwrap();
+                if m != r {
+                    out.push(format!("policy!: macro {} / runtime {}", m, r));
+                }
+                out
+            }));
+            match r {
+                Ok(v) => bad.extend(v.into_iter().map(|x| format!("{}: {}", $label, x))),
+                Err(_) => bad.push(format!("{}: a macro or the run-time path panicked", $label)),
+            }
+        }};
+    }
+    for i in [0i64, 1, -1, i64::MAX, i64::MIN] {
+        one!(format!("i64 {}", i), i);
+    }
+    one!("bool true", true);
+    one!("bool false", false);
+    for t in ["", "a", "quote \" backslash \\ newline \n", "{p}", "é∀"] {
+        one!(format!("String {:?}", t), t.to_string());
+        one!(format!("&str {:?}", t), t);
+    }
+    for b in [vec![], vec![0u8], vec![255u8, 0, 1]] {
+        one!(format!("Vec<u8> {:?}", b), b.clone());
+    }
+    // dates: whole seconds and every half of the second after it
+    for (secs, nanos) in [(0u64, 0u32), (1_700_000_000, 0), (1_700_000_000, 1), (1_700_000_000, 499_999_999), (1_700_000_000, 500_000_000),
+        (1_700_000_000, 999_999_999), (253_402_300_799, 999_999_999)]
+    {
+        let t: SystemTime = UNIX_EPOCH + Duration::new(secs, nanos);
+        one!(format!("SystemTime {}.{:09}", secs, nanos), t);
+    }
+    let mut set = BTreeSet::new();
+    set.insert(builder::Term::Integer(1));
+    set.insert(builder::Term::Str("a".into()));
+    one!("BTreeSet<Term>", set.clone());
+    one!("Term::Null", builder::Term::Null);
+    one!("Term::Array", builder::Term::Array(vec![builder::Term::Integer(1), builder::Term::Str("x".into())]));
+    // public keys in scopes, the same parameter in two alternatives
+    for k in key_pool().into_iter().take(3) {
+        let r = catch_unwind(AssertUnwindSafe(|| {
+            let m = check!("check if a(1) trusting {pk} or b(2) trusting {pk}", pk = k);
+            let mut r = builder::Check::try_from("check if a(1) trusting {pk} or b(2) trusting {pk}").unwrap();
+            r.set_scope("pk", k).unwrap();
+            if m != r {
+                Some(format!("check!: macro {} / runtime {}", m, r))
+            } else {
+                None
+            }
+        }));
+        match r {
+            Ok(Some(x)) => bad.push(format!("PublicKey {}: {}", k.print(), x)),
+            Ok(None) => {}
+            Err(_) => bad.push(format!("PublicKey {}: a macro or the run-time path panicked", k.print())),
+        }
+    }
+    bad
+}
+
 pub fn macro_main(seed: u64, thorough: bool, fns: &[fn(&MVals) -> MOut]) {
     std::panic::set_hook(Box::new(|_| {}));
     let out = arg("--out-dir").expect("--out-dir");
@@ -2322,7 +2417,7 @@ pub fn macro_main(seed: u64, thorough: bool, fns: &[fn(&MVals) -> MOut]) {
     let mut n_single = 0u64;
     let mut n_builders = 0u64;
     let mut item_diff_known: Vec<String> = vec![];
-    let mut item_diff_other: Vec<String> = vec![];
+    let mut item_diff_other: Vec<String> = typed_param_mismatches().into_iter().map(|x| format!("native parameter value -- {}", x)).collect();
     let mut result_diff: Vec<String> = vec![];
     let mut builder_diff: Vec<String> = vec![];
     let mut macro_panics_single: Vec<String> = vec![];
